@@ -2,6 +2,7 @@
      SpscRing::{push, pop, is_empty}, Drop for SpscRing                      (src/media/spsc.rs)
      SampleStreamSource::{try_send_drop_oldest (= send), try_send, send_many, Clone, Drop},
      SampleStreamTrack::{recv, stop}                                         (src/media/track.rs)
+     SampleQueueSender::{send, try_send, Drop}, SampleQueueReceiver::recv    (src/media/pipeline.rs)
 
    Threads: 0 = the consumer, 1 = a controller that may call stop(), 2+k = producer k.
    Every thread runs a program (list of operations); `step s t` executes ONE shared-memory
@@ -21,13 +22,21 @@
    still holds one.
 
    Ghost fields (never read by `step`): pushed (values in tail-store order), taken (values in
-   slot-read order, tagged with who took them), stopped.
+   slot-read order, tagged with who took them), stopped, p_pushed (per producer).
 
    tokio::sync::Notify is modelled by its documented semantics for ONE waiter: a stored permit
    and a counter of notify_waiters() calls; notify_one = wake the registered waiter or store the
    permit; notify_waiters = bump the counter and wake the registered waiter (nothing is stored);
    `notified()` snapshots the counter; awaiting it = consume the permit, or finish at once if
    the counter moved since the snapshot, or register and block until woken.
+
+   Producers are serialised by `push_lock` (fixes 19ac498 / 1094a59): PLockPush blocks while another
+   producer is between its lock and its return.  A recv() future can be dropped at its await point
+   (ORecvC / ORecvQC): the waiter is deregistered and a notify_one it had already received is handed
+   on (stored as the permit), exactly as tokio's Drop for Notified does.
+   The pipeline queue is the same ring + closed flag + locks + Notify; its sender is not Clone
+   (ODropTx: Drop stores the flag unconditionally), its recv is ORecvQ.  The receiver's own Drop
+   (which also sets the flag) is not modelled.
 
    Definitions only; proofs in Proofs/SpscProofs.v. *)
 From Coq Require Import ZArith List Bool.
@@ -43,38 +52,32 @@ Record sh : Type := mkSh {
   cap : Z; wmod : Z;
   slots : Z -> option val;
   head : Z; tail : Z;
-  closed : bool; ended : bool; lock : bool; senders : Z;
-  permit : bool; waiting : bool; woken : bool; nwc : Z;
+  closed : bool; ended : bool;
+  lock : bool;                  (* pop_lock *)
+  plock : bool;                 (* push_lock *)
+  senders : Z;
+  permit : bool; waiting : bool; woken : bool;
+  wone : bool;                  (* the pending wake-up came from notify_one (not notify_waiters) *)
+  nwc : Z;
   ub : option ubk;
   pushed : list val; taken : list (bool * val); stopped : bool }.
 
 Definition upd (f : Z -> option val) (i : Z) (v : option val) : Z -> option val :=
   fun j => if j =? i then v else f j.
 
-Definition set_slots s f := mkSh (cap s) (wmod s) f (head s) (tail s) (closed s) (ended s) (lock s) (senders s)
-  (permit s) (waiting s) (woken s) (nwc s) (ub s) (pushed s) (taken s) (stopped s).
-Definition set_take s f tk := mkSh (cap s) (wmod s) f (head s) (tail s) (closed s) (ended s) (lock s) (senders s)
-  (permit s) (waiting s) (woken s) (nwc s) (ub s) (pushed s) tk (stopped s).
-Definition set_head s h := mkSh (cap s) (wmod s) (slots s) h (tail s) (closed s) (ended s) (lock s) (senders s)
-  (permit s) (waiting s) (woken s) (nwc s) (ub s) (pushed s) (taken s) (stopped s).
-Definition set_tail s t v := mkSh (cap s) (wmod s) (slots s) (head s) t (closed s) (ended s) (lock s) (senders s)
-  (permit s) (waiting s) (woken s) (nwc s) (ub s) (pushed s ++ [v]) (taken s) (stopped s).
-Definition set_closed s b := mkSh (cap s) (wmod s) (slots s) (head s) (tail s) b (ended s) (lock s) (senders s)
-  (permit s) (waiting s) (woken s) (nwc s) (ub s) (pushed s) (taken s) (stopped s).
-Definition set_ended s b := mkSh (cap s) (wmod s) (slots s) (head s) (tail s) (closed s) b (lock s) (senders s)
-  (permit s) (waiting s) (woken s) (nwc s) (ub s) (pushed s) (taken s) (stopped s).
-Definition set_stop s := mkSh (cap s) (wmod s) (slots s) (head s) (tail s) (closed s) true (lock s) (senders s)
-  (permit s) (waiting s) (woken s) (nwc s) (ub s) (pushed s) (taken s) true.
-Definition set_lock s b := mkSh (cap s) (wmod s) (slots s) (head s) (tail s) (closed s) (ended s) b (senders s)
-  (permit s) (waiting s) (woken s) (nwc s) (ub s) (pushed s) (taken s) (stopped s).
-Definition set_senders s n := mkSh (cap s) (wmod s) (slots s) (head s) (tail s) (closed s) (ended s) (lock s) n
-  (permit s) (waiting s) (woken s) (nwc s) (ub s) (pushed s) (taken s) (stopped s).
-Definition set_notify s p w k := mkSh (cap s) (wmod s) (slots s) (head s) (tail s) (closed s) (ended s) (lock s) (senders s)
-  p w k (nwc s) (ub s) (pushed s) (taken s) (stopped s).
-Definition set_nw s w k := mkSh (cap s) (wmod s) (slots s) (head s) (tail s) (closed s) (ended s) (lock s) (senders s)
-  (permit s) w k (nwc s + 1) (ub s) (pushed s) (taken s) (stopped s).
-Definition raise s k := mkSh (cap s) (wmod s) (slots s) (head s) (tail s) (closed s) (ended s) (lock s) (senders s)
-  (permit s) (waiting s) (woken s) (nwc s) (match ub s with Some x => Some x | None => Some k end) (pushed s) (taken s) (stopped s).
+Definition set_slots s f := mkSh (cap s) (wmod s) f (head s) (tail s) (closed s) (ended s) (lock s) (plock s) (senders s) (permit s) (waiting s) (woken s) (wone s) (nwc s) (ub s) (pushed s) (taken s) (stopped s).
+Definition set_take s f tk := mkSh (cap s) (wmod s) f (head s) (tail s) (closed s) (ended s) (lock s) (plock s) (senders s) (permit s) (waiting s) (woken s) (wone s) (nwc s) (ub s) (pushed s) tk (stopped s).
+Definition set_head s h := mkSh (cap s) (wmod s) (slots s) h (tail s) (closed s) (ended s) (lock s) (plock s) (senders s) (permit s) (waiting s) (woken s) (wone s) (nwc s) (ub s) (pushed s) (taken s) (stopped s).
+Definition set_tail s t v := mkSh (cap s) (wmod s) (slots s) (head s) t (closed s) (ended s) (lock s) (plock s) (senders s) (permit s) (waiting s) (woken s) (wone s) (nwc s) (ub s) (pushed s ++ [v]) (taken s) (stopped s).
+Definition set_closed s b := mkSh (cap s) (wmod s) (slots s) (head s) (tail s) b (ended s) (lock s) (plock s) (senders s) (permit s) (waiting s) (woken s) (wone s) (nwc s) (ub s) (pushed s) (taken s) (stopped s).
+Definition set_ended s b := mkSh (cap s) (wmod s) (slots s) (head s) (tail s) (closed s) b (lock s) (plock s) (senders s) (permit s) (waiting s) (woken s) (wone s) (nwc s) (ub s) (pushed s) (taken s) (stopped s).
+Definition set_stop s := mkSh (cap s) (wmod s) (slots s) (head s) (tail s) (closed s) true (lock s) (plock s) (senders s) (permit s) (waiting s) (woken s) (wone s) (nwc s) (ub s) (pushed s) (taken s) true.
+Definition set_lock s b := mkSh (cap s) (wmod s) (slots s) (head s) (tail s) (closed s) (ended s) b (plock s) (senders s) (permit s) (waiting s) (woken s) (wone s) (nwc s) (ub s) (pushed s) (taken s) (stopped s).
+Definition set_plock s b := mkSh (cap s) (wmod s) (slots s) (head s) (tail s) (closed s) (ended s) (lock s) b (senders s) (permit s) (waiting s) (woken s) (wone s) (nwc s) (ub s) (pushed s) (taken s) (stopped s).
+Definition set_senders s n := mkSh (cap s) (wmod s) (slots s) (head s) (tail s) (closed s) (ended s) (lock s) (plock s) n (permit s) (waiting s) (woken s) (wone s) (nwc s) (ub s) (pushed s) (taken s) (stopped s).
+Definition set_notify s p w k o := mkSh (cap s) (wmod s) (slots s) (head s) (tail s) (closed s) (ended s) (lock s) (plock s) (senders s) p w k o (nwc s) (ub s) (pushed s) (taken s) (stopped s).
+Definition set_nw s w k o := mkSh (cap s) (wmod s) (slots s) (head s) (tail s) (closed s) (ended s) (lock s) (plock s) (senders s) (permit s) w k o (nwc s + 1) (ub s) (pushed s) (taken s) (stopped s).
+Definition raise s k := mkSh (cap s) (wmod s) (slots s) (head s) (tail s) (closed s) (ended s) (lock s) (plock s) (senders s) (permit s) (waiting s) (woken s) (wone s) (nwc s) (match ub s with Some x => Some x | None => Some k end) (pushed s) (taken s) (stopped s).
 
 (* ---- ring primitives *)
 Definition wrapW (s : sh) (x : Z) : Z := x mod wmod s.
@@ -95,9 +98,12 @@ Definition ring_read (s : sh) (who : bool) (rh : Z) : sh * val :=
   end.
 
 Definition notify_one (s : sh) : sh :=
-  if waiting s then set_notify s (permit s) false true else set_notify s true false (woken s).
+  if waiting s then set_notify s (permit s) false true true else set_notify s true false (woken s) (wone s).
 Definition notify_waiters (s : sh) : sh :=
-  if waiting s then set_nw s false true else set_nw s (waiting s) (woken s).
+  if waiting s then set_nw s false true false else set_nw s (waiting s) (woken s) (wone s).
+(* a registered / woken Notified future is dropped: deregister; a notify_one it holds is handed on *)
+Definition cancel_wait (s : sh) : sh :=
+  set_notify s (permit s || (woken s && wone s)) false false false.
 
 (* Drop for SpscRing: `while head != tail { drop slot head % cap; head = head.wrapping_add(1) }`
    on the machine words; it performs exactly (tail - head) mod wmod iterations. *)
@@ -121,12 +127,15 @@ Inductive pop_ : Set :=           (* producer-thread operations *)
 | OSend (v : val)
 | OSendMany (l : list val)
 | OClone
-| ODropSrc.
-Inductive cop : Set := OPop | ORecv.   (* consumer-thread operations *)
+| ODropSrc
+| ODropTx.                        (* pipeline: Drop for SampleQueueSender (no sender count) *)
+Inductive cop : Set :=            (* consumer-thread operations *)
+| OPop | ORecv | ORecvQ
+| ORecvC | ORecvQC.               (* recv() whose future is dropped when scheduled while it waits *)
 
 Inductive ret : Set :=
 | RPushOk | RPushFull | RTryOk | RWouldBlock | RClosed | RSendOk | RManyOk
-| RPop (o : option val) | RRecv (v : val) | REos | RPending.
+| RPop (o : option val) | RRecv (v : val) | REos | RPending | RCancelled.
 
 Inductive pushpc : Set := PuLoadTail | PuLoadHead | PuWrite | PuStoreTail.
 Inductive poppc : Set := PoLoadHead | PoLoadTail | PoRead | PoStoreHead.
@@ -136,15 +145,18 @@ Inductive ckind : Set := KTry | KSend (many : bool).
 Inductive ppc : Set :=
 | PIdle
 | PClosedChk (k : ckind)
+| PLockPush (k : ckind)
 | PPush (c : pctx) (m : pushpc)
 | PNotify (c : pctx)
 | PTryLock (many : bool)
 | PPop (many : bool) (m : poppc)
 | PUnlock (many : bool)
+| PUnlockPush (r : ret)
 | PCloneFA | PDropFS | PDropStoreClosed | PDropNotify.
 
 Record pth : Type := mkP {
-  p_prog : list pop_; p_pc : ppc; p_rt : Z; p_rh : Z; p_rv : val; p_handles : Z; p_rets : list ret }.
+  p_prog : list pop_; p_pc : ppc; p_rt : Z; p_rh : Z; p_rv : val; p_handles : Z; p_rets : list ret;
+  p_pushed : list val }.          (* ghost: the values this thread pushed, in order *)
 
 Inductive cpc : Set :=
 | CIdle
@@ -154,12 +166,17 @@ Inductive cpc : Set :=
 | CRvUnlockRet
 | CRvStoreEnded1 | CRvUnlockEos
 | CRvUnlockWait | CRvAwait | CRvWaiting
-| CRvClosed2 | CRvEmptyH | CRvEmptyT | CRvStoreEnded2.
+| CRvClosed2 | CRvEmptyH | CRvEmptyT | CRvStoreEnded2
+| CQLock | CQClosed1
+| CQPop (m : poppc)
+| CQUnlockRet | CQUnlockEos | CQUnlockWait
+| CQCreate | CQEmptyH | CQEmptyT | CQClosed2 | CQAwait | CQWaiting.
 
 Record cth : Type := mkC {
   c_prog : list cop; c_pc : cpc; c_rt : Z; c_rh : Z; c_rp : val;
   c_snap : Z;          (* notify_waiters counter seen when the Notified future was created *)
   c_cl : bool;         (* `let closed = source_closed.load()` *)
+  c_can : bool;        (* the running recv() is one that gets cancelled at its await *)
   c_rets : list ret }.
 
 Inductive spc : Set := SIdle | SStore | SNotify.
@@ -169,21 +186,23 @@ Record st : Type := mkSt { shd : sh; cons : cth; stp : sth; prods : list pth }.
 
 (* ---- producer *)
 Definition p_at (p : pth) (pc : ppc) : pth :=
-  mkP (p_prog p) pc (p_rt p) (p_rh p) (p_rv p) (p_handles p) (p_rets p).
+  mkP (p_prog p) pc (p_rt p) (p_rh p) (p_rv p) (p_handles p) (p_rets p) (p_pushed p).
 Definition p_ret (p : pth) (r : ret) : pth :=
-  mkP (p_prog p) PIdle (p_rt p) (p_rh p) (p_rv p) (p_handles p) (p_rets p ++ [r]).
+  mkP (p_prog p) PIdle (p_rt p) (p_rh p) (p_rv p) (p_handles p) (p_rets p ++ [r]) (p_pushed p).
 Definition p_start (p : pth) (prog : list pop_) (pc : ppc) (v : val) : pth :=
-  mkP prog pc (p_rt p) (p_rh p) v (p_handles p) (p_rets p).
+  mkP prog pc (p_rt p) (p_rh p) v (p_handles p) (p_rets p) (p_pushed p).
 Definition p_set_rt (p : pth) (pc : ppc) (x : Z) : pth :=
-  mkP (p_prog p) pc x (p_rh p) (p_rv p) (p_handles p) (p_rets p).
+  mkP (p_prog p) pc x (p_rh p) (p_rv p) (p_handles p) (p_rets p) (p_pushed p).
 Definition p_set_rh (p : pth) (pc : ppc) (x : Z) : pth :=
-  mkP (p_prog p) pc (p_rt p) x (p_rv p) (p_handles p) (p_rets p).
+  mkP (p_prog p) pc (p_rt p) x (p_rv p) (p_handles p) (p_rets p) (p_pushed p).
 Definition p_set_handles (p : pth) (pc : ppc) (n : Z) : pth :=
-  mkP (p_prog p) pc (p_rt p) (p_rh p) (p_rv p) n (p_rets p).
+  mkP (p_prog p) pc (p_rt p) (p_rh p) (p_rv p) n (p_rets p) (p_pushed p).
+Definition p_log (p : pth) : pth :=
+  mkP (p_prog p) (p_pc p) (p_rt p) (p_rh p) (p_rv p) (p_handles p) (p_rets p) (p_pushed p ++ [p_rv p]).
 (* Err(Closed) out of try_send_drop_oldest: `?` in send_many abandons the remaining samples *)
 Definition p_ret_closed (p : pth) (k : ckind) : pth :=
   mkP (match k with KSend true => tl (p_prog p) | _ => p_prog p end) PIdle
-      (p_rt p) (p_rh p) (p_rv p) (p_handles p) (p_rets p ++ [RClosed]).
+      (p_rt p) (p_rh p) (p_rv p) (p_handles p) (p_rets p ++ [RClosed]) (p_pushed p).
 
 Definition ctx_of (k : ckind) : pctx := match k with KTry => CTry | KSend m => CSend1 m end.
 
@@ -191,7 +210,7 @@ Definition ctx_of (k : ckind) : pctx := match k with KTry => CTry | KSend m => C
 Definition push_full (s : sh) (p : pth) (c : pctx) : sh * pth :=
   match c with
   | CRaw => (s, p_ret p RPushFull)
-  | CTry => (s, p_ret p RWouldBlock)
+  | CTry => (s, p_at p (PUnlockPush RWouldBlock))
   | CSend1 m => (s, p_at p (PTryLock m))
   | CSend2 m => (s, p_at p (PUnlock m))       (* the sample is dropped, no notify *)
   end.
@@ -215,25 +234,31 @@ Definition pstep (s : sh) (p : pth) : option (sh * pth) :=
       | OSendMany (v :: l) :: r => Some (s, p_start p (OSendMany l :: r) (PClosedChk (KSend true)) v)
       | OClone :: r => Some (s, p_start p r PCloneFA (p_rv p))
       | ODropSrc :: r => Some (s, p_start p r PDropFS (p_rv p))
+      | ODropTx :: r =>
+          (* no shared access: the pipeline sender has no count; `senders` is only bookkeeping here *)
+          Some (set_senders s (senders s - 1),
+                p_set_handles (p_start p r PIdle (p_rv p)) (if senders s =? 1 then PDropStoreClosed else PIdle) (p_handles p - 1))
       end
   | PClosedChk k =>
       if closed s then Some (s, p_ret_closed p k)
-      else Some (s, p_at p (PPush (ctx_of k) PuLoadTail))
+      else Some (s, p_at p (PLockPush k))
+  | PLockPush k =>
+      if plock s then None else Some (set_plock s true, p_at p (PPush (ctx_of k) PuLoadTail))
   | PPush c PuLoadTail => Some (s, p_set_rt p (PPush c PuLoadHead) (tail s))
   | PPush c PuLoadHead =>
       let h := head s in
       if is_full s (p_rt p) h then Some (push_full s (p_set_rh p (p_pc p) h) c)
       else Some (s, p_set_rh p (PPush c PuWrite) h)
   | PPush c PuWrite => Some (ring_write s (p_rt p) (p_rv p), p_at p (PPush c PuStoreTail))
-  | PPush c PuStoreTail => Some (push_done (set_tail s (p_rt p + 1) (p_rv p)) p c)
+  | PPush c PuStoreTail => Some (push_done (set_tail s (p_rt p + 1) (p_rv p)) (p_log p) c)
   | PNotify c =>
       match c with
       | CSend2 m => Some (notify_one s, p_at p (PUnlock m))
-      | CTry => Some (notify_one s, p_ret p RTryOk)
-      | _ => Some (notify_one s, p_ret p RSendOk)
+      | CTry => Some (notify_one s, p_at p (PUnlockPush RTryOk))
+      | _ => Some (notify_one s, p_at p (PUnlockPush RSendOk))
       end
   | PTryLock m =>
-      if lock s then Some (s, p_ret p RSendOk)          (* `None => return Ok(())`: sample dropped *)
+      if lock s then Some (s, p_at p (PUnlockPush RSendOk))   (* `None => return Ok(())`: sample dropped *)
       else Some (set_lock s true, p_at p (PPop m PoLoadHead))
   | PPop m PoLoadHead => Some (s, p_set_rh p (PPop m PoLoadTail) (head s))
   | PPop m PoLoadTail =>
@@ -242,7 +267,8 @@ Definition pstep (s : sh) (p : pth) : option (sh * pth) :=
       else Some (s, p_set_rt p (PPop m PoRead) t)
   | PPop m PoRead => Some (fst (ring_read s false (p_rh p)), p_at p (PPop m PoStoreHead))
   | PPop m PoStoreHead => Some (set_head s (p_rh p + 1), p_at p (PPush (CSend2 m) PuLoadTail))
-  | PUnlock m => Some (set_lock s false, p_ret p RSendOk)
+  | PUnlock m => Some (set_lock s false, p_at p (PUnlockPush RSendOk))
+  | PUnlockPush r => Some (set_plock s false, p_ret p r)
   | PCloneFA => Some (set_senders s (senders s + 1), p_set_handles p PIdle (p_handles p + 1))
   | PDropFS =>
       Some (set_senders s (senders s - 1),
@@ -252,26 +278,44 @@ Definition pstep (s : sh) (p : pth) : option (sh * pth) :=
   end.
 
 (* ---- consumer *)
-Definition c_at (c : cth) (pc : cpc) : cth := mkC (c_prog c) pc (c_rt c) (c_rh c) (c_rp c) (c_snap c) (c_cl c) (c_rets c).
-Definition c_ret (c : cth) (r : ret) : cth := mkC (c_prog c) CIdle (c_rt c) (c_rh c) (c_rp c) (c_snap c) (c_cl c) (c_rets c ++ [r]).
-Definition c_start (c : cth) (prog : list cop) (pc : cpc) : cth := mkC prog pc (c_rt c) (c_rh c) (c_rp c) (c_snap c) (c_cl c) (c_rets c).
-Definition c_set_rt (c : cth) (pc : cpc) (x : Z) : cth := mkC (c_prog c) pc x (c_rh c) (c_rp c) (c_snap c) (c_cl c) (c_rets c).
-Definition c_set_rh (c : cth) (pc : cpc) (x : Z) : cth := mkC (c_prog c) pc (c_rt c) x (c_rp c) (c_snap c) (c_cl c) (c_rets c).
-Definition c_set_rp (c : cth) (pc : cpc) (x : val) : cth := mkC (c_prog c) pc (c_rt c) (c_rh c) x (c_snap c) (c_cl c) (c_rets c).
-Definition c_set_snap (c : cth) (pc : cpc) (x : Z) : cth := mkC (c_prog c) pc (c_rt c) (c_rh c) (c_rp c) x (c_cl c) (c_rets c).
-Definition c_set_cl (c : cth) (pc : cpc) (b : bool) : cth := mkC (c_prog c) pc (c_rt c) (c_rh c) (c_rp c) (c_snap c) b (c_rets c).
+Definition c_at (c : cth) (pc : cpc) : cth := mkC (c_prog c) pc (c_rt c) (c_rh c) (c_rp c) (c_snap c) (c_cl c) (c_can c) (c_rets c).
+Definition c_ret (c : cth) (r : ret) : cth := mkC (c_prog c) CIdle (c_rt c) (c_rh c) (c_rp c) (c_snap c) (c_cl c) (c_can c) (c_rets c ++ [r]).
+Definition c_start (c : cth) (prog : list cop) (pc : cpc) (can : bool) : cth := mkC prog pc (c_rt c) (c_rh c) (c_rp c) (c_snap c) (c_cl c) can (c_rets c).
+Definition c_set_rt (c : cth) (pc : cpc) (x : Z) : cth := mkC (c_prog c) pc x (c_rh c) (c_rp c) (c_snap c) (c_cl c) (c_can c) (c_rets c).
+Definition c_set_rh (c : cth) (pc : cpc) (x : Z) : cth := mkC (c_prog c) pc (c_rt c) x (c_rp c) (c_snap c) (c_cl c) (c_can c) (c_rets c).
+Definition c_set_rp (c : cth) (pc : cpc) (x : val) : cth := mkC (c_prog c) pc (c_rt c) (c_rh c) x (c_snap c) (c_cl c) (c_can c) (c_rets c).
+Definition c_set_snap (c : cth) (pc : cpc) (x : Z) : cth := mkC (c_prog c) pc (c_rt c) (c_rh c) (c_rp c) x (c_cl c) (c_can c) (c_rets c).
+Definition c_set_cl (c : cth) (pc : cpc) (b : bool) : cth := mkC (c_prog c) pc (c_rt c) (c_rh c) (c_rp c) (c_snap c) b (c_can c) (c_rets c).
 
-(* recv() after the fixes 1e3221d / 72fa4b8:
+(* `notified.await`: consume the permit, or finish at once if notify_waiters ran since the future was
+   created, or register as the waiter *)
+Definition await_step (s : sh) (c : cth) (next waitpc : cpc) : sh * cth :=
+  if permit s then (set_notify s false (waiting s) (woken s) (wone s), c_at c next)
+  else if nwc s =? c_snap c then (set_notify s false true false false, c_at c waitpc)
+  else (s, c_at c next).
+(* at the await: a cancelled recv() drops its future; otherwise resume once woken *)
+Definition waiting_step (s : sh) (c : cth) (next : cpc) : option (sh * cth) :=
+  if c_can c then Some (cancel_wait s, c_ret c RCancelled)
+  else if woken s then Some (set_notify s (permit s) false false false, c_at c next)
+  else None.
+
+(* SampleStreamTrack::recv() after the fixes 1e3221d / 72fa4b8:
      loop { let notified = notify.notified(); if ended {EOS}
             { lock; let closed = source_closed; if let Some(s) = pop() {return s}; if closed {ended = true; EOS} }
-            notified.await; if source_closed && is_empty() {ended = true; EOS} } *)
+            notified.await; if source_closed && is_empty() {ended = true; EOS} }
+   SampleQueueReceiver::recv() after the fix dc21402:
+     loop { { lock; let closed = closed; if let Some(s) = pop() {return Some(s)}; if closed {return None} }
+            let notified = notify.notified(); if is_empty() && !closed { notified.await } } *)
 Definition cstep (s : sh) (c : cth) : option (sh * cth) :=
   match c_pc c with
   | CIdle =>
       match c_prog c with
       | [] => None
-      | OPop :: r => Some (s, c_start c r (CPopRaw PoLoadHead))
-      | ORecv :: r => Some (s, c_start c r CRvCreate)
+      | OPop :: r => Some (s, c_start c r (CPopRaw PoLoadHead) false)
+      | ORecv :: r => Some (s, c_start c r CRvCreate false)
+      | ORecvC :: r => Some (s, c_start c r CRvCreate true)
+      | ORecvQ :: r => Some (s, c_start c r CQLock false)
+      | ORecvQC :: r => Some (s, c_start c r CQLock true)
       end
   | CPopRaw PoLoadHead => Some (s, c_set_rh c (CPopRaw PoLoadTail) (head s))
   | CPopRaw PoLoadTail =>
@@ -296,18 +340,35 @@ Definition cstep (s : sh) (c : cth) : option (sh * cth) :=
   | CRvStoreEnded1 => Some (set_ended s true, c_at c CRvUnlockEos)
   | CRvUnlockEos => Some (set_lock s false, c_ret c REos)
   | CRvUnlockWait => Some (set_lock s false, c_at c CRvAwait)
-  | CRvAwait =>
-      if permit s then Some (set_notify s false (waiting s) (woken s), c_at c CRvClosed2)
-      else if nwc s =? c_snap c then Some (set_notify s false true false, c_at c CRvWaiting)
-      else Some (s, c_at c CRvClosed2)
-  | CRvWaiting =>
-      if woken s then Some (set_notify s (permit s) false false, c_at c CRvClosed2) else None
+  | CRvAwait => Some (await_step s c CRvClosed2 CRvWaiting)
+  | CRvWaiting => waiting_step s c CRvClosed2
   | CRvClosed2 => if closed s then Some (s, c_at c CRvEmptyH) else Some (s, c_at c CRvCreate)
   | CRvEmptyH => Some (s, c_set_rh c CRvEmptyT (head s))
   | CRvEmptyT =>
       let t := tail s in
       if is_mt s (c_rh c) t then Some (s, c_set_rt c CRvStoreEnded2 t) else Some (s, c_set_rt c CRvCreate t)
   | CRvStoreEnded2 => Some (set_ended s true, c_ret c REos)
+  | CQLock => if lock s then None else Some (set_lock s true, c_at c CQClosed1)
+  | CQClosed1 => Some (s, c_set_cl c (CQPop PoLoadHead) (closed s))
+  | CQPop PoLoadHead => Some (s, c_set_rh c (CQPop PoLoadTail) (head s))
+  | CQPop PoLoadTail =>
+      let t := tail s in
+      if is_mt s (c_rh c) t
+      then Some (s, c_set_rt c (if c_cl c then CQUnlockEos else CQUnlockWait) t)
+      else Some (s, c_set_rt c (CQPop PoRead) t)
+  | CQPop PoRead => let '(s', v) := ring_read s true (c_rh c) in Some (s', c_set_rp c (CQPop PoStoreHead) v)
+  | CQPop PoStoreHead => Some (set_head s (c_rh c + 1), c_at c CQUnlockRet)
+  | CQUnlockRet => Some (set_lock s false, c_ret c (RRecv (c_rp c)))
+  | CQUnlockEos => Some (set_lock s false, c_ret c REos)
+  | CQUnlockWait => Some (set_lock s false, c_at c CQCreate)
+  | CQCreate => Some (s, c_set_snap c CQEmptyH (nwc s))
+  | CQEmptyH => Some (s, c_set_rh c CQEmptyT (head s))
+  | CQEmptyT =>
+      let t := tail s in
+      if is_mt s (c_rh c) t then Some (s, c_set_rt c CQClosed2 t) else Some (s, c_set_rt c CQLock t)
+  | CQClosed2 => if closed s then Some (s, c_at c CQLock) else Some (s, c_at c CQAwait)
+  | CQAwait => Some (await_step s c CQLock CQWaiting)
+  | CQWaiting => waiting_step s c CQLock
   end.
 
 (* ---- controller calling stop() *)
@@ -345,9 +406,9 @@ Fixpoint run (s : st) (sched : list nat) : st :=
 Definition reachable (s0 s : st) : Prop := exists sched, run s0 sched = s.
 
 Definition sh0 (capacity w nsenders : Z) : sh :=
-  mkSh capacity w (fun _ => None) 0 0 false false false nsenders false false false 0 None [] [] false.
-Definition p0 (prog : list pop_) : pth := mkP prog PIdle 0 0 0 1 [].
-Definition c0 (prog : list cop) : cth := mkC prog CIdle 0 0 0 0 false [].
+  mkSh capacity w (fun _ => None) 0 0 false false false false nsenders false false false false 0 None [] [] false.
+Definition p0 (prog : list pop_) : pth := mkP prog PIdle 0 0 0 1 [] [].
+Definition c0 (prog : list cop) : cth := mkC prog CIdle 0 0 0 0 false false [].
 (* every producer thread owns one source handle (the original or a clone made before the spawn) *)
 Definition init (capacity w : Z) (cprog : list cop) (nstop : nat) (pprogs : list (list pop_)) : st :=
   mkSt (sh0 capacity w (Z.of_nat (length pprogs))) (c0 cprog) (mkS nstop SIdle) (map p0 pprogs).
@@ -382,7 +443,7 @@ Definition t_idle (s : st) (t : nat) : bool :=
   | S (S k) => match nth_error (prods s) k with Some p => p_idle p | None => true end
   end.
 Definition cancel_recv (s : st) : st :=
-  mkSt (set_notify (shd s) (permit (shd s)) false false) (c_ret (cons s) RPending) (stp s) (prods s).
+  mkSt (cancel_wait (shd s)) (c_ret (cons s) RPending) (stp s) (prods s).
 Fixpoint finish_op (fuel : nat) (s : st) (t : nat) : st :=
   match fuel with
   | O => s
